@@ -323,7 +323,10 @@ func (v *vState) OnlyMatch(desc string) bool {
 }
 
 // Violation records an oracle failure found outside rapid (enumerations).
-func (v *vState) Violation(t interface{ Errorf(string, ...any); Name() string }, only string, c any, format string, args ...any) {
+func (v *vState) Violation(t interface {
+	Errorf(string, ...any)
+	Name() string
+}, only string, c any, format string, args ...any) {
 	msg := fmt.Sprintf(format, args...)
 	v.mu.Lock()
 	v.violations = append(v.violations, vFail{Test: t.Name(), Message: msg, Case: c, Only: only})
@@ -416,18 +419,18 @@ func (v *vState) flush() {
 	}
 	samples := append(append([]any{}, v.samplesHead...), v.samplesTail...)
 	st := map[string]any{
-		"evaluations":     v.evaluations,
-		"classes":         v.classes,
-		"samples":         samples,
-		"rule":            v.rule,
-		"assumptions":     v.assumptions,
-		"extra":           v.extra,
-		"known_findings":  v.known,
-		"violations":      v.violations,
+		"evaluations":      v.evaluations,
+		"classes":          v.classes,
+		"samples":          samples,
+		"rule":             v.rule,
+		"assumptions":      v.assumptions,
+		"extra":            v.extra,
+		"known_findings":   v.known,
+		"violations":       v.violations,
 		"required_classes": required,
-		"inconclusive":    v.inconclusive,
-		"hash_capped":     v.hashCapped,
-		"harness_error":   v.harnessErr,
+		"inconclusive":     v.inconclusive,
+		"hash_capped":      v.hashCapped,
+		"harness_error":    v.harnessErr,
 	}
 	if v.exhaustive != nil {
 		st["exhaustive"] = *v.exhaustive
